@@ -4,6 +4,7 @@ Internal proxy detection always uses ``type(x) is SInt`` etc. (proxies fake ``__
 from __future__ import annotations
 
 import builtins
+import re as _re
 import enum as _enum
 import io as _io
 import os
@@ -110,7 +111,8 @@ class Engine:
         return v
 
     def _decide(self, cond):
-        h = cond.hash()
+        # fingerprint that does not depend on AST ids (simplify orders commutative arguments by id)
+        h = (cond.decl().kind(), cond.num_args(), _real_len(cond.sexpr()))
         if self.pos < _real_len(self.trail):
             v, _, h0 = self.trail[self.pos]
             if h0 != h:
@@ -1116,6 +1118,14 @@ def payload(x):
 
 
 # ---------------------------------------------------------------------------------------------- streams
+def _mkbytes(items):
+    """Real bytes when nothing is symbolic (keeps concrete data on the native path)."""
+    for i in items:
+        if _real_type(i) is not int:
+            return SBytes(items, bytes)
+    return bytes(items)
+
+
 class SymStream:
     """Seekable binary stream over symbolic content; logs every operation."""
 
@@ -1145,7 +1155,7 @@ class SymStream:
             out = self.data[self.pos:self.pos + n]
         self.log.append(("read", self.pos, n, _real_len(out)))
         self.pos += _real_len(out)
-        return SBytes(out.items, bytes)
+        return _mkbytes(out.items)
 
     def tell(self):
         return self.pos
@@ -1182,7 +1192,7 @@ class SymStream:
         return _real_len(items)
 
     def getvalue(self):
-        return SBytes(self.data.items, bytes)
+        return _mkbytes(self.data.items)
 
     def seekable(self):
         return True
@@ -1706,6 +1716,8 @@ def dispatch(f, /, *a, **k):
             return model_pack(slf, *a)
     if _real_isinstance(slf, (bytes, bytearray)) and name == "join":
         return join_model(slf, a[0])
+    if _real_type(slf) is str and name == "join":
+        return join_str_model(slf, a[0])
     if _real_isinstance(slf, _CONTAINER_TYPES) or _real_type(slf) in PROXY_TYPES or _real_isinstance(slf, SymStream):
         return f(*a, **k)
     if tf is type or _real_isinstance(f, type):
@@ -1800,6 +1812,75 @@ def contains(x, container):
     raise Inconclusive(f"`in` with symbolic left operand on {type(container).__name__}")
 
 
+_CONV = {-1: lambda v: v, 115: str, 114: repr, 97: ascii}
+
+
+def _hexdigit(n):
+    """16-bit code unit of the lower-case hex digit of a 4-bit int-like."""
+    t, lo, hi = _iv(n)
+    return z3.simplify(z3.Extract(15, 0, z3.If(t < 10, t + 48, t + 87)))
+
+
+def format_model(v, spec):
+    """format(v, spec) for a proxy value -> SStr (supported: [0]Nx on bounded non-negative ints, [N]s on strings)."""
+    ENGINE.models_used.add("format()/f-string on symbolic value")
+    p = payload(v)
+    if _real_type(p) is SStr:
+        m = _re.fullmatch(r"(\d*)s?", spec)
+        if not m:
+            raise Inconclusive(f"format spec {spec!r} on symbolic str")
+        width = int(m.group(1) or 0)
+        return SStr(p.items + [32] * max(0, width - _real_len(p.items)))
+    if _real_type(p) is SInt:
+        m = _re.fullmatch(r"0(\d+)x", spec)
+        if m and p.lo >= 0 and p.hi >= (1 << (4 * int(m.group(1)))):
+            # the interval does not see how the value was derived: ask the solver for the bound
+            if ENGINE.check(z3.UGE(p.t, z3.BitVecVal(1 << (4 * int(m.group(1))), W))) == z3.unsat:
+                p = SInt(p.t, p.lo, (1 << (4 * int(m.group(1)))) - 1)
+        if m and p.lo >= 0 and p.hi < (1 << (4 * int(m.group(1)))):
+            n = int(m.group(1))
+            return SStr([_hexdigit((p >> (4 * (n - 1 - i))) & 15) for i in range(n)])
+        return SStr([ord(c) for c in format(concretize(p), spec)])
+    raise Inconclusive(f"format of symbolic {type(p).__name__}")
+
+
+def fstring(*parts):
+    """f-string (rewritten JoinedStr): native unless a part is symbolic."""
+    out = []
+    sym = False
+    for part in parts:
+        if _real_type(part) is tuple:
+            v, conv, spec = part
+            if ENGINE.symbolic and (_real_type(v) in PROXY_TYPES or _real_type(spec) in PROXY_TYPES):
+                if conv != -1:
+                    raise Inconclusive("!r/!s/!a conversion of a symbolic value")
+                out.append(format_model(v, spec))
+                sym = True
+            else:
+                out.append(format(_CONV[conv](v), spec))
+        else:
+            out.append(part)
+    if not sym:
+        return "".join(out)
+    res = SStr([])
+    for o in out:
+        res = res + o
+    return res
+
+
+def join_str_model(sep, parts):
+    ENGINE.models_used.add("str.join")
+    parts = list(parts)
+    if not any(_real_type(payload(x)) is SStr for x in parts) and _real_type(sep) is not SStr:
+        return sep.join(parts)
+    res = SStr([])
+    for i, part in enumerate(parts):
+        if i:
+            res = res + sep
+        res = res + part
+    return res
+
+
 PROXY_TYPES = (SInt, SBool, SBytes, SByteArray, SStr, SFloat, SInst)
 _installed = [False]
 
@@ -1808,5 +1889,5 @@ def install():
     if _installed[0]:
         return
     _installed[0] = True
-    instr.install(dispatch, contains)
+    instr.install(dispatch, contains, fstring)
     builtins.hash = vhash
